@@ -258,6 +258,9 @@ func judge(r *mon.Run, j *job, o runOut) string {
 		}
 		if o.Simples > 0 {
 			cause = "simple-get"
+			if sc.SimpleChunked {
+				cause = "simple-get:no-content-length"
+			}
 		}
 		w.Note = fmt.Sprintf("first differing offset %d", o.FirstDiff)
 		r.Violation("wrong-bytes:err-nil:"+cause, fmt.Sprintf("returned %d bytes != resource (%d bytes) with err == nil", o.GotLen, j.ResLen), w)
@@ -384,6 +387,37 @@ func enumJobs(maxN int) []*job {
 }
 
 // ---------------------------------------------------------------------------
+// Arm F: the whole-body fallback (fetchSimple), enumerated
+
+// fallbackJobs: {why the fetcher falls back} x {GET declares its length,
+// GET is chunked} x {resource size vs MaxFetchBytes: cap-1, cap, cap+1,
+// cap+k, 3*cap} x {cap}; never zstd. The oracle is the usual one: exactly the
+// resource or an error.
+func fallbackJobs() []*job {
+	var jobs []*job
+	triggers := []string{"error", "no-length", "no-accept-ranges", "status-405", "below-threshold"}
+	for _, capBytes := range []int{64, 4096, 65536} {
+		for _, rel := range []string{"cap-1", "cap", "cap+1", "cap+k", "3*cap"} {
+			size := map[string]int{"cap-1": capBytes - 1, "cap": capBytes, "cap+1": capBytes + 1, "cap+k": capBytes + 37 + capBytes/16, "3*cap": 3 * capBytes}[rel]
+			for _, trig := range triggers {
+				for _, chunked := range []bool{false, true} {
+					sc := &script{Size: size, Chunk: int64(max(1, size/4)), Threshold: 1, MaxFetch: int64(capBytes), Head: headSpec{trig}, Simple: "ok",
+						SimpleChunked: chunked, Attempts: map[string]behaviour{}, Seed: uint64(7_000_000 + len(jobs))}
+					if trig == "below-threshold" {
+						sc.Head.Kind = "normal"
+						sc.Threshold = int64(size + 1)
+					}
+					jobs = append(jobs, &job{Arm: "fallback", Script: sc, ResLen: size, Parallel: 4,
+						Configs: []hedgeCfg{{Parallel: 4, Multiplier: alwaysHedge, MaxHedges: 0}},
+						Label:   fmt.Sprintf("fallback trigger=%s chunked=%v resource=%s cap=%d", trig, chunked, rel, capBytes)})
+				}
+			}
+		}
+	}
+	return jobs
+}
+
+// ---------------------------------------------------------------------------
 // Arm R
 
 var allKinds = []string{kOK, kShort, kLong, kWhole, k416, k5xx, kReset, kNet, kHang}
@@ -419,6 +453,7 @@ func randomJobs(r *mon.Run, n int, bigSizes bool) []*job {
 		if rng.IntN(6) == 0 {
 			sc.Simple = []string{"503", "reset"}[rng.IntN(2)]
 		}
+		sc.SimpleChunked = rng.IntN(2) == 0
 		j.Script = sc
 		_, served := j.materialise()
 		sc.Size = len(served) // chunking applies to the served (encoded) bytes
@@ -435,6 +470,9 @@ func randomJobs(r *mon.Run, n int, bigSizes bool) []*job {
 		sc.MaxFetch = int64(sc.Size+size) + 1 + int64(rng.IntN(1000))
 		if rng.IntN(25) == 0 {
 			sc.MaxFetch = int64(rng.IntN(sc.Size) + 1)
+		}
+		if rng.IntN(10) == 0 {
+			sc.MaxFetch = int64(max(1, sc.Size+rng.IntN(3)-1)) // size-1, size, size+1
 		}
 		faulty := []int{0, 8, 25, 60}[rng.IntN(4)]
 		for c := 0; c < sc.numChunks(); c++ {
@@ -522,6 +560,27 @@ func runJobs(r *mon.Run, jobs []*job, workers, blockSize int) {
 		judgeJob(r, j, results[i])
 		if j.Arm == "enum" {
 			r.Class(fmt.Sprintf("enumerated:n=%d", j.Script.numChunks()))
+		} else if j.Arm == "fallback" {
+			sc := j.Script
+			took := len(results[i]) > 0 && results[i][0].Simples > 0
+			if !took {
+				r.Inconclusive("C32 fallback job did not take the whole-body path: " + j.Label)
+			}
+			rel := "<"
+			switch {
+			case int64(sc.Size) > sc.MaxFetch:
+				rel = ">"
+			case int64(sc.Size) == sc.MaxFetch:
+				rel = "=="
+			}
+			form := "declared-length"
+			if sc.SimpleChunked {
+				form = "chunked-get"
+			}
+			r.Class(fmt.Sprintf("fallback:%s:resource%smax-fetch", form, rel))
+			if took && results[i][0].Returned && !results[i][0].HasErr && results[i][0].Equal {
+				r.Class(fmt.Sprintf("fallback:%s:resource%smax-fetch:returned-exact", form, rel))
+			}
 		} else {
 			r.Class("head:" + j.Script.Head.Kind)
 			if j.Script.MaxFetch < int64(j.Script.Size) {
@@ -541,10 +600,13 @@ func main() {
 	defer r.Finish()
 	r.SetLevel("fault_enumeration")
 	r.SetRule("arm E (exhaustive): n in 3..6 (thorough 3..8) chunks x every multiset of {fast-ok, slow-ok, fail, fail-then-hedge-ok, ok-then-hedge-fail-last} x 2 chunk orders x hedging {off, always/unlimited, always/max1, always/max2}; " +
+		"arm F (exhaustive): whole-body fallback: trigger {HEAD error, no length, no Accept-Ranges, 405, below threshold} x GET {declared length, chunked/no Content-Length} x resource size {cap-1, cap, cap+1, cap+k, 3*cap} x MaxFetchBytes {64, 4096, 65536}, non-zstd; " +
 		"arm R (random remainder): size 1 B..256 KiB (thorough ..4 MiB), 1..40 chunks, parallelism 1..16, multiplier {0,1e-9,0.1,2,1e9}, max hedges 0..8, per-(chunk,attempt) behaviour over {206 exact/short/long, 200 whole, 416, 503, reset mid-body, net error, hang} x rank 0..5, HEAD variants {normal, zstd, no length, no Accept-Ranges, error, 405}; " +
 		"one evaluation = one driven call; distinct = distinct (script, config, observed delivery order)")
 	r.Require("ok-exact", "error-returned", "hedge-delivered", "straggler-cancelled", "hang-released-by-timeout", "simple-get-fallback", "semaphore-limited",
 		"ok:hedge-rescued-failed-chunk", "ok:late-hedge-failure-suppressed", "ok:zstd-parallel", "differential:both-succeeded-equal",
+		"fallback:chunked-get:resource>max-fetch", "fallback:chunked-get:resource==max-fetch", "fallback:chunked-get:resource==max-fetch:returned-exact",
+		"fallback:declared-length:resource>max-fetch", "fallback:chunked-get:resource<max-fetch:returned-exact",
 		"enumerated:n=3", "enumerated:n=6", "head:no-length", "head:no-accept-ranges", "head:error")
 	r.Assume("a goroutine dump (runtime.Stack all) reports goroutine states and 'created by ... in goroutine N' truthfully; 'parked' and 'quiescent deadlock' are read from it, never from elapsed time")
 	r.Assume("a scripted hang is ended by the driver as a client-side request timeout once nothing else is pending (models http.Client.Timeout); FetchConfig.TimeoutSeconds itself is not consulted by the code under test")
@@ -557,6 +619,9 @@ func main() {
 	runJobs(r, ej, workers, 40)
 	r.SetExhaustive(true)
 	r.Set("enumerated_scripts", len(ej))
+	fj := fallbackJobs()
+	runJobs(r, fj, workers, 50)
+	r.Set("enumerated_fallback_scripts", len(fj))
 	t1 := time.Now()
 	rj := randomJobs(r, r.N(500, 12000), r.Thorough())
 	runJobs(r, rj, workers, 60)
